@@ -75,6 +75,83 @@ pub fn run_validate<T: SwiftMessageBody + serde::Serialize>(text: &str) -> Value
     }
 }
 
+/// Build the message from its serde JSON form and run the validation entry points on it.
+pub fn run_validate_json<T: SwiftMessageBody + serde::Serialize + serde::de::DeserializeOwned + Clone + PartialEq + std::fmt::Debug>(
+    j: &Value,
+) -> Value {
+    match serde_json::from_value::<T>(j.clone()) {
+        Ok(m) => {
+            let before = m.clone();
+            let all: Vec<String> = m.validate_network_rules(false).iter().map(|e| e.error_code().to_string()).collect();
+            let first: Vec<String> = m.validate_network_rules(true).iter().map(|e| e.error_code().to_string()).collect();
+            let again: Vec<String> = m.validate_network_rules(false).iter().map(|e| e.error_code().to_string()).collect();
+            json!({"ok": true, "codes": all, "first": first, "again": again, "unchanged": before == m, "mt": m.to_mt_string()})
+        }
+        Err(e) => json!({"ok": false, "de_error": e.to_string()}),
+    }
+}
+
+pub trait Classify {
+    fn classify(&self) -> Value;
+}
+impl Classify for swift_mt_message::messages::MT103 {
+    fn classify(&self) -> Value {
+        json!({"ok": true, "reject": self.has_reject_codes(), "return": self.has_return_codes(), "stp": self.is_stp_compliant()})
+    }
+}
+impl Classify for swift_mt_message::messages::MT202 {
+    fn classify(&self) -> Value {
+        json!({"ok": true, "reject": self.has_reject_codes(), "return": self.has_return_codes(), "cover": self.is_cover_message()})
+    }
+}
+impl Classify for swift_mt_message::messages::MT205 {
+    fn classify(&self) -> Value {
+        json!({"ok": true, "reject": self.has_reject_codes(), "return": self.has_return_codes(), "cover": self.is_cover_message()})
+    }
+}
+pub fn run_classify_json<T: Classify + serde::de::DeserializeOwned>(j: &Value) -> Value {
+    match serde_json::from_value::<T>(j.clone()) {
+        Ok(m) => m.classify(),
+        Err(e) => json!({"ok": false, "de_error": e.to_string()}),
+    }
+}
+
+/// Message-level classification: body from its JSON form, user header from JSON, fixed blocks 1/2.
+pub fn run_classify_message_json<T: SwiftMessageBody + serde::Serialize + serde::de::DeserializeOwned + Clone + std::fmt::Debug>(
+    j: &Value,
+    uh: &Value,
+) -> Value {
+    let body = match serde_json::from_value::<T>(j.clone()) {
+        Ok(m) => m,
+        Err(e) => return json!({"ok": false, "de_error": e.to_string()}),
+    };
+    let user_header = if uh.is_null() {
+        None
+    } else {
+        match serde_json::from_value::<swift_mt_message::headers::UserHeader>(uh.clone()) {
+            Ok(h) => Some(h),
+            Err(e) => return json!({"ok": false, "de_error": format!("user header: {}", e)}),
+        }
+    };
+    let basic = match swift_mt_message::headers::BasicHeader::parse("F01BANKBEBBAXXX0000000000") {
+        Ok(b) => b,
+        Err(e) => return json!({"ok": false, "de_error": format!("basic header: {}", e)}),
+    };
+    let app = match swift_mt_message::headers::ApplicationHeader::parse(&format!("I{}BANKDEFFXXXXN", T::message_type())) {
+        Ok(a) => a,
+        Err(e) => return json!({"ok": false, "de_error": format!("application header: {}", e)}),
+    };
+    let msg = swift_mt_message::SwiftMessage {
+        basic_header: basic,
+        application_header: app,
+        user_header,
+        trailer: None,
+        message_type: T::message_type().to_string(),
+        fields: body,
+    };
+    json!({"ok": true, "reject": msg.has_reject_codes(), "return": msg.has_return_codes(), "cover": msg.is_cover_message(), "stp": msg.is_stp_message()})
+}
+
 /// Full message text through the typed parser and back.
 pub fn run_full<T: SwiftMessageBody + serde::Serialize + Clone + std::fmt::Debug + serde::de::DeserializeOwned>(text: &str) -> Value
 where
@@ -104,6 +181,9 @@ pub fn run(item: &Value) -> Value {
         }
         "block4" => crate::api_gen::block4(ty, item["text"].as_str().unwrap_or("")).unwrap_or(json!({"error": "unknown message type"})),
         "validate" => crate::api_gen::validate(ty, item["text"].as_str().unwrap_or("")).unwrap_or(json!({"error": "unknown message type"})),
+        "classify_message_json" => crate::api_gen::classify_message_json(ty, &item["json"], &item["user_header"]).unwrap_or(json!({"error": "unknown message type"})),
+        "classify_json" => crate::api_gen::classify_json(ty, &item["json"]).unwrap_or(json!({"error": "unknown message type"})),
+        "validate_json" => crate::api_gen::validate_json(ty, &item["json"]).unwrap_or(json!({"error": "unknown message type"})),
         "full" => crate::api_gen::full(ty, item["text"].as_str().unwrap_or("")).unwrap_or(json!({"error": "unknown message type"})),
         "types" => json!({"fields": crate::api_gen::FIELD_TYPES, "messages": crate::api_gen::MESSAGE_TYPES}),
         _ => json!({"error": format!("unknown op {}", op)}),
